@@ -84,7 +84,7 @@ pub fn run_case(u: &Universe, case: &Value) -> Vec<Value> {
     let n = forms.len();
     let mut ev = json!({"id": format!("{}", case["id"]), "ev": "cksum", "wrap": wrap, "forms": forms, "panic": false, "msg": "", "parsed": false,
                         "text": "", "s": [], "rt": {"ok": false, "msg": "", "eq": false, "fix": false, "alt_eq": false, "same_spk": false},
-                        "keys": [], "accepted": [], "sample": [], "eng": [], "tried": {"one": 0, "two": 0, "grp3": 0, "grp4": 0}});
+                        "keys": [], "accepted": [], "sample": [], "eng": [], "wp": {"st": "none", "msg": "", "tpl": "", "tpl_rt": false, "back_eq": false, "from_str_eq": false, "rekey_eq": false}, "tried": {"one": 0, "two": 0, "grp3": 0, "grp4": 0}});
     let exprs: Vec<String> = (1..=n).map(|j| descobs::key_text(u, j, &forms[j - 1])).collect();
     let text0 = text_of(u, wrap, &exprs);
     ev["input"] = json!(text0);
@@ -148,6 +148,36 @@ pub fn run_case(u: &Universe, case: &Value) -> Vec<Value> {
             }
         }
         o["keys"] = json!(keys);
+        // wallet policy (BIP388): descriptor -> template + key vector -> descriptor
+        let wp = catch_unwind(AssertUnwindSafe(|| -> Value {
+            use miniscript::descriptor::WalletPolicy;
+            match WalletPolicy::from_descriptor(&d) {
+                Err(e) => json!({"st": "err", "msg": e.to_string(), "tpl": "", "tpl_rt": false, "back_eq": false, "from_str_eq": false, "rekey_eq": false}),
+                Ok(w) => {
+                    let tpl = w.to_string();
+                    // the template text parses back to a policy that prints the same template
+                    let t2 = WalletPolicy::from_str(&tpl);
+                    let tpl_rt = t2.as_ref().map(|x| x.to_string() == tpl).unwrap_or(false);
+                    // template + the descriptor's own keys gives back the descriptor
+                    let back_eq = w.clone().into_descriptor().map(|x| x == d).unwrap_or(false);
+                    // the descriptor string parses to the same wallet policy
+                    let from_str_eq = WalletPolicy::from_str(&printed).map(|x| x == w).unwrap_or(false);
+                    // a policy parsed from the bare template, given the key vector, yields the descriptor too
+                    let mut keys: Vec<DescriptorPublicKey> = vec![];
+                    for k in d.iter_pk() {
+                        if !keys.contains(&k) {
+                            keys.push(k);
+                        }
+                    }
+                    let rekey_eq = match t2 {
+                        Ok(mut t) => t.set_key_info(&keys).is_ok() && t.into_descriptor().map(|x| x == d).unwrap_or(false),
+                        Err(_) => false,
+                    };
+                    json!({"st": "ok", "msg": "", "tpl": tpl, "tpl_rt": tpl_rt, "back_eq": back_eq, "from_str_eq": from_str_eq, "rekey_eq": rekey_eq})
+                }
+            }
+        }));
+        o["wp"] = wp.unwrap_or(json!({"st": "panic", "msg": "PANIC", "tpl": "", "tpl_rt": false, "back_eq": false, "from_str_eq": false, "rekey_eq": false}));
         // corruption
         let base: Vec<char> = printed.chars().collect();
         let len = base.len();
